@@ -39,16 +39,16 @@ def run_traces(chk, prop, windows=False, selftest=True):
     rng = random.Random(chk.seed * 31 + 2)
     jobs = []
     isa = carrier_yaml(zones=[('zone1', 40000, 40100)])
-    nrand = 120 if quick else 1500
+    nrand = 80 if quick else 1500
     for n in range(nrand):
         src = traces.random_program(rng, rng.randrange(5, 80 if quick else 300))
-        win = WINDOWS[n % len(WINDOWS)] if windows else (0, None, 0)
+        win = (WINDOWS[n % len(WINDOWS)] if not quick else WINDOWS[1 + n % 2]) if windows else (0, None, 0)
         jobs.append(('src', src, isa, None, win))
     for cfg, src, inc in corpus.corpus_programs():
         if quick and os.path.getsize(src) > 12000 and 'primes.min64x4' not in src:
             continue
         jobs.append(('corpus', src, cfg, inc, (0, None, 0)))
-        if windows:
+        if windows and (not quick or os.path.getsize(src) < 3000):
             jobs.append(('corpus', src, cfg, inc, (16, 300, 170)))
     recs = runner.pmap(_record_one, jobs)
     items, rejected_runs = [], 0
